@@ -1,6 +1,7 @@
 import Gofasta.Driver.C03
 import Gofasta.Driver.C17
 import Gofasta.Driver.C16
+import Gofasta.Driver.C06
 namespace Gofasta.Driver
 
 def dispatch (c : Case) : Verdict :=
@@ -8,6 +9,8 @@ def dispatch (c : Case) : Verdict :=
   | "C03" => runC03 c
   | "C17" => runC17 c
   | "C16" => runC16 c
+  | "C06" => runC06 c
+  | "C07" => runC06 c
   | _ => { agree := false, spec := "na", model := "unknown-property" }
 
 end Gofasta.Driver
